@@ -5,8 +5,8 @@ creation / resizing).
 Observable: after EVERY eat_chunk / finish call,  exn;name:length:len(data),...;sum(context_info.values()).
 
 A case is {'op':'mem', 'fmt', 'sizes':[...], 'cont':0|1, 'fin':k, 'k':label} plus the stream, given as
-  'n','bg','p'            background ('z' zeros | 'r<seed>' random | 't<seed>' text | 'f' 0xff | 'a' one long ASCII line)
-                          of length n with patches [[offset, hex], ...] applied in order (the C01 representation), or
+  'n','bg','p'            background ('z' zeros | 'r<seed>' random | 't<seed>' text | 'f' 0xff | 'a' one long ASCII line
+                          | 'T<seed>' periodic text) of length n with patches [[offset, hex], ...] applied in order (the C01 representation), or
   'hostile': [seed, tier, index]   the index-th image of tools/imgbuild.hostile_images(Random(seed), tier).
 sizes = chunk sizes (rest = one more chunk, 0 = empty chunk); cont=1: keep feeding the object after an exception;
 fin = index of the chunk before which finish() is called (>= number of chunks: at the end).
@@ -52,17 +52,23 @@ def data_of(c):
         return _last[1]
     key = (c['n'], c['bg'], repr(c['p']))
     if _last[0] != key:
-        if c['bg'] in ('f', 'a'):
-            b = bytearray((b'\xff' if c['bg'] == 'f' else b'A') * c['n'])
+        if c['bg'][0] in 'faT':
+            n = c['n']
+            if c['bg'][0] == 'T':       # periodic pseudo-random text (64 KiB period): fast to build for multi-MiB streams
+                blk = bytes(random.Random(int(c['bg'][1:])).choices(TEXT, k=65536))
+                b = bytearray((blk * (n // 65536 + 1))[:n])
+            else:
+                b = bytearray((b'\xff' if c['bg'] == 'f' else b'A') * n)
             for off, hx in c['p']:
                 v = bytes.fromhex(hx)
-                if off < c['n']:
-                    v = v[:c['n'] - off]; b[off:off + len(v)] = v
+                if off < n:
+                    v = v[:n - off]; b[off:off + len(v)] = v
             d = bytes(b)
         else:
             d = c01.data_of(c)
         _last[0], _last[1] = key, d
     return _last[1]
+TEXT = b'abcdefghijklmnopqrstuvwxyzABCDEFGHIJKLMNOPQRSTUVWXYZ0123456789 =#"/._-\n\n\t'
 
 # ------------------------------------------------------------------ my own hostile family (compact: n, bg, patches)
 P = c01.P
@@ -84,8 +90,8 @@ def vhdx_patches(meta_off=256 * KI, meta_len=MI, rt_count=None, rt_pad=0, mt_cou
 def own_hostile(rng, tier):
     """-> (fmt, n, bg, patches, label).  Streams long enough that a missing clamp / truncation shows in the sum."""
     big = tier != 'quick'
-    L = 6 * MI if big else 3 * MI
-    bgs = lambda: rng.choice(['z', 'r%d' % rng.randrange(10**6), 't%d' % rng.randrange(10**6), 'f', 'a'])
+    L = 6 * MI if big else 2 * MI + 4096
+    bgs = lambda: rng.choice(['z', 'r%d' % rng.randrange(10**6), 'T%d' % rng.randrange(10**6), 'f', 'a'])
     # VMDK: descriptor sector counts up to 2^64-1, with and without the footer flag
     nums = [2047, 2048, 2049, 4096, 2**32, 2**55, 2**63, U64 - 1, U64]
     for dn in (nums if big else [2048, 4096, 2**55, U64]):
@@ -94,7 +100,7 @@ def own_hostile(rng, tier):
     yield 'vmdk', L, 'a', [P(0, vmdk_hdr(U64, footer=True, ver=3)), P(512, b'createType="' + b'A' * 80)], 'vmdk-longtype'
     yield 'vmdk', L, bgs(), [P(0, vmdk_hdr(U64, desc_sec=rng.choice([0, 2, 2**55, U64]), footer=True))], 'vmdk-descsec'
     yield 'vmdk', L, bgs(), [P(0, vmdk_hdr(U64, footer=True, sectors=U64)), P(L - 1024, vmdk_hdr(U64, footer=True))], 'vmdk-footer-hdr'
-    yield 'vmdk', L, 't%d' % rng.randrange(10**6), [], 'vmdk-text'                 # text-descriptor mode: header deleted, descriptor at 0
+    yield 'vmdk', L, 'T%d' % rng.randrange(10**6), [], 'vmdk-text'                 # text-descriptor mode: header deleted, descriptor at 0
     yield 'vmdk', L, 'a', [P(0, b'# Disk DescriptorFile\ncreateType="monolithicSparse"\n')], 'vmdk-text-desc'
     yield 'vmdk', L, 'z', [P(0, b'KDMV')], 'vmdk-zero'
     # VHDX: table counts 2047/2048/65535, item lengths up to 2^32-1, announced metadata length up to 2^32-1
@@ -102,12 +108,12 @@ def own_hostile(rng, tier):
         yield 'vhdx', 256 * KI + MI + rng.choice([0, 1]), bgs(), vhdx_patches(item_len=il, meta_len=rng.choice([MI, U32])), 'vhdx-itemlen'
     yield 'vhdx', 256 * KI + MI, bgs(), vhdx_patches(item_len=U32, item_off=rng.choice([0, 32, 64, 65535])), 'vhdx-itemlen-back'
     for mc in (2047, 2048, 65535):
-        yield 'vhdx', 256 * KI + (3 * MI if mc == 65535 else MI), bgs(), vhdx_patches(mt_count=mc, meta_len=U32, item_len=U32), 'vhdx-mtcount'
+        yield 'vhdx', 256 * KI + (L if mc == 65535 else MI), bgs(), vhdx_patches(mt_count=mc, meta_len=U32, item_len=U32), 'vhdx-mtcount'
         yield 'vhdx', 256 * KI + MI, bgs(), vhdx_patches(mt_count=mc, mt_pad=min(mc, 2047) - 1, meta_len=U32, item_len=U32), 'vhdx-mtcount-full'
     for rc in (2047, 2048, 65535, U32):
         yield 'vhdx', 256 * KI + MI, bgs(), vhdx_patches(rt_count=rc, rt_pad=min(rc, 2047) - 1 if rc < 2048 else 3, meta_len=U32, item_len=U32), 'vhdx-rtcount'
-    yield 'vhdx', 256 * KI + 3 * MI, bgs(), vhdx_patches(vds=False, mt_pad=5, meta_len=U32), 'vhdx-no-vds'     # the size item never shows up
-    yield 'vhdx', 256 * KI + 3 * MI, bgs(), vhdx_patches(vds=False, mt_pad=0, mt_count=0, meta_len=U32), 'vhdx-empty-table'
+    yield 'vhdx', 256 * KI + L, bgs(), vhdx_patches(vds=False, mt_pad=5, meta_len=U32), 'vhdx-no-vds'     # the size item never shows up
+    yield 'vhdx', 256 * KI + L, bgs(), vhdx_patches(vds=False, mt_pad=0, mt_count=0, meta_len=U32), 'vhdx-empty-table'
     yield 'vhdx', 256 * KI + MI, 'z', vhdx_patches(all_meta=True, meta_len=U32, item_len=U32), 'vhdx-all-meta'
     yield 'vhdx', 2 * MI + MI, bgs(), vhdx_patches(meta_off=2 * MI - 7, meta_len=U32, item_len=U32, item_off=U32), 'vhdx-far'
     # every format on multi-MiB text / random / zeros / 0xff, and on its own valid image followed by a long tail
@@ -140,7 +146,9 @@ def modes(rng, nchunks):
 def gen_cases(rng, tier):
     # 1. boundary / hostile family first
     for fmt, n, bg, p, lab in own_hostile(rng, tier):
-        for sizes in big_chunkings(rng, n, tier):
+        ch = big_chunkings(rng, n, tier)
+        if tier == 'quick' and lab in ('plain', 'valid+tail'): ch = [ch[0], rng.choice(ch[1:])]
+        for sizes in ch:
             cont, fin = modes(rng, len(sizes) + 1)
             yield {'op': 'mem', 'fmt': fmt, 'n': n, 'bg': bg, 'p': p, 'sizes': sizes, 'cont': cont, 'fin': fin, 'k': lab}
     # 2. tools/imgbuild.hostile_images: every image to its own inspector (overlays / plain: a random one) and, in the
